@@ -28,6 +28,7 @@ fn hard_for_encoder(s: &str) -> bool {
 /// Judge one returned suggestion.  `raw`: raw typed text (phonetic) / raw key text (fixed) if known.
 pub fn judge(run: &Run, st: &mut Stats, opts: &Opts, r: &Rendered, raw: Option<&str>, case: &dyn Fn() -> Value) -> Result<(), Failure> {
     let items: Vec<(&String, &Result<String, String>)> = if r.lonely { vec![(&r.text, &r.pre[0])] } else { r.cands.iter().zip(r.pre.iter()).collect() };
+    st.evals(items.len() as u64); // one evaluation = one candidate read out and judged
     for (i, (cand, pre)) in items.iter().enumerate() {
         let fail = |kind: &str, msg: String| Failure::new(kind, format!("({}) candidate {i} {cand:?}: {msg}", opts.letters()), case());
         let pre = match pre {
